@@ -320,6 +320,14 @@ public:
             throw nix::InvalidDimension("The ticks of a range dimension must not be empty!",
                                         "DataArray::appendRangeDimension");
         }
+        // same checks as the setters, before anything is created
+        if (!std::is_sorted(ticks.begin(), ticks.end())) {
+            throw UnsortedTicks("DataArray::appendRangeDimension");
+        }
+        if (unit.size() > 0 && !util::isSIUnit(unit)) {
+            throw InvalidUnit("Unit is not an atomic SI. Note: So far composite units are not supported",
+                              "DataArray::appendRangeDimension");
+        }
         RangeDimension dim = backend()->createRangeDimension(backend()->dimensionCount() + 1, ticks);
         if (label.size() > 0)
             dim.label(label);
@@ -371,13 +379,21 @@ public:
      */
     SampledDimension appendSampledDimension(double sampling_interval, const std::string &label="",
                                             const std::string &unit="", double offset=0.0) {
+        // same checks as the setters, before anything is created
+        if (sampling_interval <= 0.0) {
+            throw std::runtime_error("DataArray::appendSampledDimension: Sampling intervals must be larger than 0.0!");
+        }
+        if (unit.size() > 0 && !util::isSIUnit(unit)) {
+            throw InvalidUnit("Unit is not a SI unit. Note: so far, only atomic SI units are supported.",
+                              "DataArray::appendSampledDimension");
+        }
         SampledDimension dim = backend()->createSampledDimension(backend()->dimensionCount() + 1,
                                                                  sampling_interval);
         if (label.size() > 0)
             dim.label(label);
         if (unit.size() > 0)
             dim.unit(unit);
-        if (offset > 0.0)
+        if (offset != 0.0)
             dim.offset(offset);
         return dim;
     }
